@@ -190,9 +190,6 @@ func rep(t *rt.Thread, c *rt.GoCont) (rt.Cont, error) {
 		return nil, err
 	}
 	n := int(ln)
-	if n < 0 {
-		return nil, errors.New("#2 out of range")
-	}
 	var sep []byte
 	if c.NArgs() >= 3 {
 		lsep, err := c.StringArg(2)
@@ -201,29 +198,33 @@ func rep(t *rt.Thread, c *rt.GoCont) (rt.Cont, error) {
 		}
 		sep = []byte(lsep)
 	}
+	if n < 0 {
+		return nil, errors.New("#2 out of range")
+	}
 	if n == 0 {
 		return c.PushingNext1(t.Runtime, rt.StringValue("")), nil
 	}
 	if n == 1 {
 		return c.PushingNext1(t.Runtime, rt.StringValue(ls)), nil
 	}
-	if sep == nil {
-		if len(ls)*n/n != len(ls) {
-			// Overflow
-			return nil, errors.New("rep causes overflow")
-		}
-		t.RequireBytes(n * len(ls))
-		return c.PushingNext1(t.Runtime, rt.StringValue(strings.Repeat(string(ls), n))), nil
-	}
 	s := []byte(ls)
-	builder := strings.Builder{}
 	sz1 := n * len(s)
 	sz2 := (n - 1) * len(sep)
 	sz := sz1 + sz2
-	if sz1/n != len(s) || sz2/(n-1) != len(sep) || sz < 0 {
+	if sz1/n != len(s) || sz2/(n-1) != len(sep) || sz < 0 || sz > maxRepSize {
+		// Either the size computation overflows or the result could never
+		// be allocated (which Go reports with a fatal panic, not an error).
 		return nil, errors.New("rep causes overflow")
 	}
-	t.RequireBytes(n*len(s) + (n-1)*len(sep))
+	if sz == 0 {
+		// Nothing to build, however big n is.
+		return c.PushingNext1(t.Runtime, rt.StringValue("")), nil
+	}
+	t.RequireBytes(sz)
+	if len(sep) == 0 {
+		return c.PushingNext1(t.Runtime, rt.StringValue(strings.Repeat(string(ls), n))), nil
+	}
+	builder := strings.Builder{}
 	builder.Grow(sz)
 	builder.Write(s)
 	for {
@@ -236,6 +237,9 @@ func rep(t *rt.Thread, c *rt.GoCont) (rt.Cont, error) {
 	}
 	return c.PushingNext1(t.Runtime, rt.StringValue(builder.String())), nil
 }
+
+// The longest string string.rep agrees to build.
+const maxRepSize = 1<<31 - 1
 
 func reverse(t *rt.Thread, c *rt.GoCont) (rt.Cont, error) {
 	if err := c.Check1Arg(); err != nil {
